@@ -1,7 +1,7 @@
 (* C06 -- comparisons, stepping and extremes agree with the real order of the value set.
    Statements only.  Models: PositModel.v, FixpntModel.v, IntegerModel.v, CfloatModel.v. *)
 From Coq Require Import ZArith QArith Lia List.
-From UV Require Import LimitsModel PositMono2 PositVal PositSpec Num PositModel PositProps PositOrder FixpntModel IntegerModel IntProps
+From UV Require Import LimitsModel LnsModel LnsProps PositMono2 PositVal PositSpec Num PositModel PositProps PositOrder FixpntModel IntegerModel IntProps
   CfloatSpec CfloatModel CfloatProps.
 Local Open Scope Z_scope.
 
@@ -62,3 +62,13 @@ Example C06_witness : plt 8 1 0x80 0x81 = true /\ plt 8 1 0xff 0x00 = true /\ pl
   /\ fx_lt 8 0x80 0x7f = true /\ num_lt (Fin true 0) (Fin false 0) = false /\ num_eq (Fin true 0) (Fin false 0) = true
   /\ cf_step (mkCf 8 2 true false false) true 0x80 = Some 0x01.
 Proof. vm_compute. repeat split; reflexivity. Qed.
+
+(* lns: the six relations are the strict total order of (sign class, exponent) keys -- negatives by decreasing exponent, zero, positives by
+   increasing exponent -- which is the order of the real values +-2^(E/2^r); NaN is unordered *)
+Theorem C06_lns_order_is_total : forall p q r : Z * Z,
+  LnsModel.key_lt p p = false /\
+  (LnsModel.key_lt p q = true -> LnsModel.key_lt q r = true -> LnsModel.key_lt p r = true) /\
+  (LnsModel.key_lt p q = true \/ LnsModel.key_eq p q = true \/ LnsModel.key_lt q p = true) /\
+  (LnsModel.key_lt p q = true -> LnsModel.key_eq p q = false).
+Proof. intros p q r. exact (conj (LnsProps.key_lt_irrefl p) (conj (LnsProps.key_lt_trans p q r) (conj (LnsProps.key_trichotomy p q) (LnsProps.key_lt_not_eq p q)))). Qed.
+Print Assumptions C06_lns_order_is_total.
